@@ -158,6 +158,10 @@ def gen_ops(rng, world, n_ev, max_ops=25, allow_faults=True):
             ops.append(op_eval())
         elif r < 0.93:
             ops.append(op_get())
+        elif r < 0.945:
+            # checkpoint: the same Model object is saved and re-loaded from
+            # the file; evaluators created before keep being used
+            ops.append({'op': 'checkpoint', 'path': '/simfs/ck.json'})
         elif r < 0.96:
             # the model is saved (possibly unsuccessfully) in between
             p = {'op': 'persist', 'path': rng.choice(
@@ -189,9 +193,44 @@ def gen_ops(rng, world, n_ev, max_ops=25, allow_faults=True):
     return ops
 
 
+def deep_world(rng):
+    """A running total 105-170 cells deep (depth-triggered behaviour)."""
+    n = rng.randint(105, 170)
+    cells = {'Sheet1!A1': rng.choice([1, 5, 10])}
+    deps = {'Sheet1!A1': []}
+    level = {'Sheet1!A1': 0}
+    order = ['Sheet1!A1']
+    for i in range(2, n + 1):
+        a = f'Sheet1!A{i}'
+        cells[a] = f'=A{i - 1}+1'
+        deps[a] = [f'Sheet1!A{i - 1}']
+        level[a] = i - 1
+        order.append(a)
+    return {'sheets': ['Sheet1'], 'cells': cells, 'deps': deps,
+            'level': level, 'names': {}, 'stale': {}, 'ranges_used': {},
+            'range_names': {}, 'order': order, 'soft_deps': {}}
+
+
 def gen_case(seed, tier='quick'):
     rng = random.Random(seed)
     faulty = rng.random() < 0.5
+    if rng.random() < 0.02:
+        world = worlds_deep = deep_world(rng)
+        end = world['order'][-1]
+        mid = world['order'][len(world['order']) // 2]
+        ops = [{'op': 'eval', 'ev': 0, 'target': end},
+               {'op': 'set', 'ev': 0, 'target': 'Sheet1!A1',
+                'value': rng.choice([1000, 7, -3])},
+               {'op': 'eval', 'ev': 0, 'target': end},
+               {'op': 'get', 'ev': 0, 'target': mid},
+               {'op': 'set', 'ev': 0, 'target': 'Sheet1!A1', 'value': 2},
+               {'op': 'eval', 'ev': 0, 'target': mid},
+               {'op': 'eval', 'ev': 0, 'target': end}]
+        knobs = {'n_evaluators': 1, 'max_empty': 100, 'fail_on': None,
+                 'fault_class': 'fault_free', 'provenance': 'compiled',
+                 'decoy': False, 'deep': True}
+        return {'property': ID, 'seed': seed, 'knobs': knobs, 'world': world,
+                'ops': ops}
     world = worlds.gen_world(rng, userfuncs=faulty and rng.random() < 0.5)
     n_ev = rng.choice([1, 1, 2, 3])
     ops = gen_ops(rng, world, n_ev, allow_faults=faulty)
@@ -330,6 +369,15 @@ class History:
                     continue
                 if kind == 'persist':
                     self.do_persist(seq, op, model)
+                    continue
+                if kind == 'checkpoint':
+                    o1 = outcome_of(model.persist_to_json_file, op['path'])
+                    o2 = outcome_of(model.construct_from_json_file,
+                                    op['path'], build_code=True) \
+                        if o1[0] == 'ok' else ['skipped']
+                    self.bump('probe:same_model_reloaded_from_checkpoint')
+                    self.log.append([seq, 'checkpoint', o1[0], o2[0]])
+                    self.sig.append('k')
                     continue
                 ev = evs[op.get('ev', 0) % len(evs)]
                 target = self.spell(op['target'])
@@ -537,7 +585,8 @@ def _run_case(case):
     viol = h.viol
     stats, log = h.stats, h.log
     # oracle 4: name/address equivalence (fault-free histories only)
-    has_fault = any(o.get('fault') or o['op'] in ('clock_jump', 'persist')
+    has_fault = any(o.get('fault') or o['op'] in ('clock_jump', 'persist',
+                                                   'checkpoint')
                     for o in case['ops']) or \
         case['knobs'].get('fail_on') is not None
     if viol is None and case['world']['names'] and not has_fault and any(
